@@ -313,8 +313,10 @@ class GraphNode(HyperNode):
         if not reverse_map:
             return outputs
 
-        # Build forward map (original -> renamed) by inverting reverse map
-        forward_map = {v: k for k, v in reverse_map.items()}
+        # Build forward map (original -> renamed) by inverting reverse map.
+        # The reverse map keeps entries for abandoned intermediate names
+        # (r->x, x->z, z->x leaves both x and z), so invert current names only.
+        forward_map = {v: k for k, v in reverse_map.items() if k in self.outputs}
         return {forward_map.get(key, key): value for key, value in outputs.items()}
 
     def has_default_for(self, param: str) -> bool:
